@@ -68,7 +68,13 @@ fn one(out: &mut Out, shape: &[usize], strides: &[usize]) {
     out.case(&req, &ans, fail, nontrivial);
 }
 
-pub fn run(args: &Args) {
+fn main() {
+    let args = hcommon::parse_args();
+    hcommon::quiet_panics();
+    run(&args)
+}
+
+fn run(args: &Args) {
     let mut out = Out::new(&args.out);
     let mut rng = Rng::new(args.seed);
     // (a) exhaustive small space: rank ≤ 3, sizes 0..=3, strides 0..=7 (thorough: rank ≤ 3, strides 0..=12)
